@@ -23,7 +23,7 @@ RULE = (
     "victim), 1-2 hosts x 1-2 workers, and one fault: none; or the victim task's body raises (with a message, with an empty message, bare assert) / calls sys.exit(k in {0,1,3}) / "
     "os._exit / SIGKILLs its own process / SIGTERMs or SIGKILLs its host's shm server while holding its inputs, before producing any output, between two yields of a multi-output task, or after its last yield (all outputs published); or the harness "
     "SIGKILLs/SIGTERMs a chosen helper process (worker i, data server, shm server of a chosen host) once the controller has seen k "
-    "events. The 37 kinds of fault (10 body faults x 3 positions, 3 helpers x 2 signals, none) are dealt round-robin over the case slots "
+    "events. The 38 kinds of fault (10 body faults x 3 positions, 3 helpers x 2 signals, none, a failing task next to a sibling task that ignores SIGTERM) are dealt round-robin over the case slots "
     "of a run, so every kind is sampled at least once per 48 cases; host names carry generated suffixes (up to 28 characters). "
     "Oracle: run() ends within the deadline (a time-out is confirmed by a second run with doubled deadline on a distant port block before it counts); "
     "if the fault makes a requested output impossible run() ends with an exception; if it returns, every requested value equals the "
@@ -58,7 +58,7 @@ KINDS = [("raise", None), ("raise_empty", None), ("assert", None), ("exit", 0), 
 
 STRATA = ([("task", k, c, at) for (k, c) in KINDS for at in ("before", "between", "after")]
           + [("helper", h, sig, None) for h in ("worker", "data", "shm") for sig in ("SIGKILL", "SIGTERM")]
-          + [("none", None, None, None)])
+          + [("none", None, None, None), ("stubborn_sibling", None, None, None)])
 
 
 @st.composite
@@ -66,6 +66,22 @@ def plans(draw, stratum=None):
     """stratum: (where, kind/helper, code/signal, at) fixes the kind of fault (stratified sampling: with 48 real clusters per quick run
     a purely random choice leaves some of the 37 kinds of fault un-sampled in most runs); the job, the victim, the cluster shape
     and the moment of a helper kill are always generated."""
+    if stratum is not None and stratum[0] == "stubborn_sibling":
+        # two independent tasks running at the same time on two workers: one fails after two seconds, the other ignores SIGTERM and
+        # would run for minutes. run() must fail promptly and the tear-down must still get rid of every process
+        spec = draw(job_specs(max_tasks=2, min_tasks=2, gpu=False, ext="none", shape_bias=False))
+        for t in spec["tasks"]:
+            t["fn_of"], t["twin_of"] = None, None
+            t["args"] = [sl for sl in t["args"] if "e" not in sl]
+            t["kwargs"] = {k: sl for k, sl in t["kwargs"].items() if "e" not in sl}
+        spec["tasks"] = [t for t in spec["tasks"]][:2]
+        vi = draw(st.integers(0, 1))
+        spec["ext"] = [[vi, spec["tasks"][vi]["outs"][-1]]]
+        two_hosts = draw(st.booleans())
+        return {"job": spec, "hosts": 2 if two_hosts else 1, "workers": 1 if two_hosts else 2,
+                "fault": {"where": "task", "task": spec["tasks"][vi]["name"], "kind": "raise_late", "at": "before",
+                          "stubborn": spec["tasks"][1 - vi]["name"]},
+                "host_suffix": draw(st.sampled_from(["", "-n01"]))}
     spec = draw(job_specs(max_tasks=6, min_tasks=2, gpu=False, ext="none"))
     for t in spec["tasks"]:
         t["fn_of"] = None  # a callable shared with the victim would carry the fault into a second task
@@ -185,23 +201,19 @@ def shard(seed, cases_n, tier):
     def body(plan):
         return run_plan_checked(plan, st_)
 
-    # stratified: the 37 kinds of fault are dealt round-robin over the shards' case slots (offset by the seed); what is left of the
-    # budget is drawn freely. The stratum is picked by a counter of generated examples, not by Hypothesis, which would favour the
-    # first few kinds
+    # stratified: the kinds of fault (STRATA) are dealt round-robin over the shards' case slots (offset by the seed); what is left of
+    # the budget is drawn freely. One Hypothesis run per slot (its first, minimal example skipped): the stratum is fixed outside
+    # Hypothesis, which would otherwise favour the first few kinds -- and must see the same strategy on every re-draw
     idx = int(os.environ.get("VERIF_SHARD", "0"))
     nsh = int(os.environ.get("VERIF_SHARDS", "1"))
     total = cases_n * nsh
     full_rounds = total // len(STRATA)
-    k = [0]
-
-    @st.composite
-    def stratified(draw):
-        slot = idx + k[0] * nsh
-        k[0] += 1
+    for j in range(cases_n):
+        slot = idx + j * nsh
         stratum = STRATA[(slot + seed // 1000) % len(STRATA)] if slot < full_rounds * len(STRATA) else None
-        return draw(plans(stratum))
-
-    common.hyp_run(stratified(), body, st_, seed, cases_n, shrink=False, skip_first=True)
+        common.hyp_run(plans(stratum), body, st_, seed * 131 + j, 1, shrink=False, skip_first=True)
+        if st_.violations:
+            break
     return st_
 
 
